@@ -28,6 +28,7 @@ type Auth struct {
 	AuthPass      string `json:"auth_pass,omitempty"`
 	IdentityToken string `json:"identitytoken,omitempty"`
 	RegistryToken string `json:"registrytoken,omitempty"`
+	RawAuth       string `json:"raw_auth,omitempty"` // an auth field that cannot be decoded (the file must not load)
 }
 
 // Helper behaviour for (helper, host): 0 credentials, 1 token, 2 not found
@@ -154,6 +155,9 @@ func (s Script) document() []byte {
 		if a.AuthUser != "" {
 			j.Auth = base64.StdEncoding.EncodeToString([]byte(a.AuthUser + ":" + a.AuthPass))
 		}
+		if a.RawAuth != "" {
+			j.Auth = a.RawAuth
+		}
 		doc.Auths[k] = j
 	}
 	b, _ := json.Marshal(doc)
@@ -176,8 +180,29 @@ func run(s Script, v *vt.V) {
 		return
 	}
 	sources := 0
+	undecodable := 0
+	for _, a := range s.Auths {
+		if a.RawAuth != "" {
+			undecodable++
+		}
+	}
+	firstOutcome := map[string]string{} // what the first decoding answered, per looked-up name
 	for dec := 0; dec < 16; dec++ {
 		cf, err := ociauth.LoadWithEnv(s.runner, []string{"DOCKER_CONFIG=" + tmpDir})
+		if undecodable > 0 {
+			// the file must be refused, and for the same reason every time
+			if err == nil {
+				v.Failf("bad-auth-accepted", "config %s has an undecodable auth field but loads", s.document())
+				return
+			}
+			if prev, ok := firstOutcome["<load>"]; ok && prev != err.Error() {
+				v.Failf("depends-on-map-order", "config %s: loading fails with %q in one decoding and with %q in another", s.document(), prev, err.Error())
+				return
+			}
+			firstOutcome["<load>"] = err.Error()
+			v.Class("undecodable-auth=%d", min(undecodable, 2))
+			continue
+		}
 		if err != nil {
 			v.Failf("load-failed", "config %s does not load: %v", s.document(), err)
 			return
@@ -192,6 +217,14 @@ func run(s Script, v *vt.V) {
 			want := reference(s, host)
 			got, err := cf.EntryForRegistry(host)
 			desc := fmt.Sprintf("decoding %d, lookup of %q in %s (credsStore helper behaviour %d)", dec, host, s.document(), s.behave(s.CredsStore, host))
+			// a deterministic function of the file and the helpers: the same answer (the same
+			// error text, too) from every decoding and in every lookup order
+			outcome := fmt.Sprintf("%+v / %v", got, err)
+			if prev, ok := firstOutcome[host]; ok && prev != outcome {
+				v.Failf("depends-on-map-order", "%s: answered %s, an earlier decoding of the same file answered %s", desc, outcome, prev)
+				return
+			}
+			firstOutcome[host] = outcome
 			switch want.err {
 			case "":
 				if err != nil {
@@ -292,6 +325,9 @@ func genScript(t *rapid.T) Script {
 		default:
 			a.Username, a.Password, a.RegistryToken = "user", secret("password"), "regtok"
 		}
+		if rapid.IntRange(0, 24).Draw(t, "undecodable") == 0 {
+			a.RawAuth = rapid.SampledFrom([]string{"!!!not base64", "bm8tY29sb24taGVyZQ==", "OnBhc3M=", "dXNlcjpwYXNz=", "===="}).Draw(t, "rawAuth")
+		}
 		return a
 	}
 	n := rapid.IntRange(0, 5).Draw(t, "nauths")
@@ -348,7 +384,7 @@ func genScript(t *rapid.T) Script {
 var prop = &vt.Prop[Script]{
 	ID:   "C19",
 	Name: "CredentialLookup",
-	Rule: "config documents generated from the schema: auths with plain host keys, https:// and http:// URL keys with 0-3 path segments and trailing slashes, keys containing '//' without a scheme, several URL keys for one host, explicit + URL key for one host; entries with username/password, auth = base64(user:password) (passwords with ':' inside/leading/trailing, spaces, NUL inside, non-ASCII, arbitrary generated text so that every base64 digit and padding length occurs), auth overriding username/password, identitytoken, registrytoken, identitytoken+username; credsStore; credHelpers incl. the empty string and a per-host helper equal to credsStore; helper behaviour per (helper, host) in {credentials, token, not found, binary missing, other error}; the file is loaded through LoadWithEnv from DOCKER_CONFIG 16 times (fresh map orders) and all hosts (and some keys) are looked up in a different order each time; oracle = an independent reference of the stated precedence: every decoding and every order gives exactly the reference's entry or error class (colliding URL keys: error listing the keys sorted); non-trivial = some looked-up host has >= 2 sources; distinct = (document, behaviours, lookups)",
+	Rule: "config documents generated from the schema: auths with plain host keys, https:// and http:// URL keys with 0-3 path segments and trailing slashes, keys containing '//' without a scheme, several URL keys for one host, explicit + URL key for one host; entries with username/password, auth = base64(user:password) (passwords with ':' inside/leading/trailing, spaces, NUL inside, non-ASCII, arbitrary generated text so that every base64 digit and padding length occurs), auth overriding username/password, identitytoken, registrytoken, identitytoken+username; credsStore; credHelpers incl. the empty string and a per-host helper equal to credsStore; helper behaviour per (helper, host) in {credentials, token, not found, binary missing, other error}; the file is loaded through LoadWithEnv from DOCKER_CONFIG 16 times (fresh map orders) and all hosts (and some keys) are looked up in a different order each time; oracle = an independent reference of the stated precedence: every decoding and every order gives exactly the reference's entry or error class (colliding URL keys: error listing the keys sorted), every decoding answers each lookup identically (same entry, same error text), and a file with undecodable auth fields is refused with the same error every time; non-trivial = some looked-up host has >= 2 sources; distinct = (document, behaviours, lookups)",
 	Gen:  genScript,
 	Run:  run,
 }
